@@ -186,6 +186,8 @@ func (s *stream) listen(args models.ListenerArgs) {
 func (s *stream) reopenStream(vbID uint16) {
 	retry := 5
 
+	verifHook("reopen.start")
+
 	for {
 		err := s.openStream(vbID)
 		if err == nil {
